@@ -91,7 +91,7 @@ pub fn enc_c(ops: &[COp]) -> String {
 
 pub fn run(id: usize, rng: &mut Rng) -> String {
     let sc = gen(rng);
-    let cfg = Config { seed: rng.next(), p_timer: *rng.pick(&[0u64, 30, 200]), ..Config::default() };
+    let cfg = Config { seed: rng.next(), p_timer: *rng.pick(&[0u64, 30, 200]), p_spurious: *rng.pick(&[0u64, 0, 0, 60, 300]), ..Config::default() };
     let hist: Arc<StdMutex<Vec<Vec<String>>>> = Arc::new(StdMutex::new(sc.cons.iter().map(|_| vec![]).collect()));
     let h2 = hist.clone();
     let prods = sc.prods.clone();
@@ -280,6 +280,14 @@ pub fn map_labels(rep: &sched::Report) -> String {
                     if in_wait.get(&e.tid).cloned().unwrap_or(false) {
                         in_wait.insert(e.tid, false);
                         emit(&mut out, e.t, format!("T{}", c), &mut last_t);
+                    }
+                }
+            }
+            "spurious" => {
+                if let Some(&c) = cons_of.get(&e.tid) {
+                    if in_wait.get(&e.tid).cloned().unwrap_or(false) {
+                        in_wait.insert(e.tid, false);
+                        emit(&mut out, e.t, format!("S{}", c), &mut last_t);
                     }
                 }
             }
